@@ -14,6 +14,10 @@ import (
 	gnmi "github.com/openconfig/gnmi/proto/gnmi"
 )
 
+// maxDecimal64Precision is the largest number of fraction digits of a YANG decimal64 (RFC 7950 section 9.3.4);
+// the stored value keeps the precision in 8 bits and 10^precision has to fit an int64
+const maxDecimal64Precision = 18
+
 // GnmiTypedValueToNativeType converts gnmi type based values in to native byte array changes
 func GnmiTypedValueToNativeType(gnmiTv *gnmi.TypedValue, modelPath *configapi.ReadWritePath) (*configapi.TypedValue, error) {
 
@@ -39,6 +43,9 @@ func GnmiTypedValueToNativeType(gnmiTv *gnmi.TypedValue, modelPath *configapi.Re
 	case *gnmi.TypedValue_BytesVal:
 		return configapi.NewTypedValueBytes(v.BytesVal), nil
 	case *gnmi.TypedValue_DecimalVal:
+		if v.DecimalVal.Precision > maxDecimal64Precision {
+			return nil, fmt.Errorf("decimal64 precision %d is not supported (at most %d fraction digits)", v.DecimalVal.Precision, maxDecimal64Precision)
+		}
 		return configapi.NewTypedValueDecimal(v.DecimalVal.Digits, uint8(v.DecimalVal.Precision)), nil
 	case *gnmi.TypedValue_FloatVal:
 		if math.IsNaN(float64(v.FloatVal)) {
@@ -83,6 +90,9 @@ func handleLeafList(gnmiLl *gnmi.TypedValue_LeaflistVal, typeOpt0 uint8) (*confi
 		case *gnmi.TypedValue_BytesVal:
 			bytesList = append(bytesList, u.BytesVal)
 		case *gnmi.TypedValue_DecimalVal:
+			if u.DecimalVal.Precision > maxDecimal64Precision {
+				return nil, fmt.Errorf("decimal64 precision %d is not supported (at most %d fraction digits)", u.DecimalVal.Precision, maxDecimal64Precision)
+			}
 			digitsList = append(digitsList, u.DecimalVal.Digits)
 			precision = uint8(u.DecimalVal.Precision)
 		case *gnmi.TypedValue_FloatVal:
